@@ -18,7 +18,13 @@ independent reading of the same data.
           and with the library's own sanitize/aggregate pipeline on a correctly labelled frame.
  fields   parse_field_param on a small grammar of `name[=number][:dtype=..,agg=..]`.
  zoomify  every spelling of the resolution spec (N, B, 4DN, <int>N, <int>B, <int>, lists, case,
-          blanks) against the documented progressions; posts of preferred_sequence.
+          blanks) against the documented progressions, on genomes whose length is and is not a
+          multiple of 256 (the top level ceil(L/256) is inclusive); the levels actually written are
+          read back; posts of preferred_sequence.
+ Loaders are also run with non-integer (x.5) counts and more chunks than --max-merge (two merge
+ passes): the stored values must be exactly the input values / the in-memory aggregate whatever
+ the chunk size and --max-merge.  `dump --fill-lower` -> `load --input-copy-status duplex` must
+ reproduce a symmetric cooler including its main diagonal.
 
 Assumed (not checked here): to_csv/read_csv round trip of ints and %g floats.
 """
@@ -1109,10 +1115,11 @@ def main():
     if T:
         rt_specs += [rt(t, m, fmt, ob, cs, dk) for (t, m) in [("fixed10-short-last", "dense"), ("variable", "dense"), ("width1", "dense"), ("variable", "diagonal"),
                                                              ("one-bin-chroms", "dense"), ("fixed-3chrom", "sparse-empty-row")]
-                     for fmt in ("coo", "bg2") for ob in (0, 1) for cs, dk in ((None, None), (1, None), (2, 2), (3, None), (5, 1), (7, None))]
+                     for fmt in ("coo", "bg2") for ob in (0, 1) for cs, dk in ((None, None), (1, None), (2, 2), (3, 1), (5, 1), (7, None), (4, 2))]
     else:
-        rt_specs += [rt("fixed10-short-last", "dense", "coo", 0, cs, dk) for cs, dk in ((None, None), (2, None), (4, 2), (7, None))]
-        rt_specs += [rt("fixed10-short-last", "dense", "bg2", 0, 5), rt("variable", "dense", "bg2", 1, 8, 2), rt("width1", "dense", "coo", 1, 6)]
+        # dump -k 1/2 interleaves the reflected (lower) records with the diagonal/upper ones row by row, so that load chunks mix them
+        rt_specs += [rt("fixed10-short-last", "dense", "coo", 0, cs, dk) for cs, dk in ((None, None), (2, 1), (4, 2), (7, 1))]
+        rt_specs += [rt("fixed10-short-last", "dense", "bg2", 0, 5, 1), rt("variable", "dense", "bg2", 1, 8, 2), rt("width1", "dense", "coo", 1, 6, 1)]
     run_jobs(B, R, roundtrip_job, rt_specs, T)
 
     # ------------------------------------------------------------ cload pairs
@@ -1175,9 +1182,11 @@ def main():
         zspecs += ["b", "4dn", "2000n", "2000b", "5000,2000B", " 2000N , 5000 ", "1000N", "1000B", "3000B", "3000N", "4000,8000", "2000,4000b", "5000n,2000", "10000N", "16000B", "4DN,4000"]
     zcoolers = [(1000, {"c1": 3_000_000, "c2": 2_120_000}, zspecs),                      # L % 256 == 0, stop 20000
                 # genome lengths with L % 256 != 0 whose ceil(L/256) is itself a member of a progression (top level inclusive)
-                (10, {"c1": 12000, "c2": 8470}, ["B", "b", None, "20B", "40b", "N", "20N"]),   # L = 20470 -> stop 80 = 10*2^3 = 20*2^2 = 40*2
-                (10, {"c1": 15000, "c2": 10590}, ["N", "n", "20N", "50n", "B", "20B"]),        # L = 25590 -> stop 100 = 10*10 = 20*5 = 50*2
-                (10, {"c1": 5110}, ["N", "B"])]                                                # L = 5110  -> stop 20 = 10*2
+                # (L/256 just above an integer: floor and round both miss the top level; just below: floor misses it)
+                (10, {"c1": 12000, "c2": 8240}, ["B", "b", None, "20B", "40b", "N", "20N"]),   # L = 20240 -> 79.06 -> stop 80 = 10*2^3 = 20*2^2 = 40*2
+                (10, {"c1": 15000, "c2": 10350}, ["N", "n", "20N", "50n", "B", "20B"]),        # L = 25350 -> 99.02 -> stop 100 = 10*10 = 20*5 = 50*2
+                (10, {"c1": 5110}, ["N", "B"]),                                                # L = 5110  -> 19.96 -> stop 20 = 10*2
+                (10, {"c1": 12000, "c2": 8470}, ["B", "20b"])]                                 # L = 20470 -> 79.96 -> stop 80
     if T:
         zcoolers += [(1, {"c1": 1000, "c2": 1045}, ["B", "N", "2B", "4N"]),                    # L = 2045 -> stop 8 (binary) ...
                      (5, {"c1": 6400, "c2": 6395}, ["B", "N", "10N", "25B"]),                  # L = 12795 -> stop 50 = 5*10 = 10*5 = 25*2
